@@ -236,8 +236,20 @@ fn run_history(seed: u64, idx: usize, work: &Path, backups_per_history: usize) -
         let census = eng::census(be);
         wait_new_second(taken.last().map(|t| t.meta.timestamp).unwrap_or(0));
         let dir = DirSnap::read(&src);
-        let full = k == 0 || r.chance(1, 5);
-        let parent = taken.last().map(|t| t.meta.clone());
+        let full_roll = r.chance(1, 5);
+        let full = k == 0 || (full_roll && !(idx % 2 == 1 && k <= 2));
+        // the parent of an incremental is usually the backup before it; sometimes an EARLIER backup of the
+        // same full chain (two incrementals then share a parent: the timeline of parent pointers branches
+        // although the engine's history is linear)
+        let last_full = taken.iter().rposition(|t| t.meta.backup_type == BackupType::Full).unwrap_or(0);
+        let forced_sibling = idx % 2 == 1 && k == 2; // every second history has two incrementals sharing a parent
+        let pidx = if !full && taken.len() >= 2 && taken.len() - 1 > last_full && (forced_sibling || r.chance(1, 3)) {
+            acc.bump("incremental_against_earlier_parent");
+            last_full + r.below((taken.len() - 1 - last_full) as u64) as usize
+        } else {
+            taken.len().saturating_sub(1)
+        };
+        let parent = taken.get(pidx).map(|t| t.meta.clone());
         let res = if full { mgr.create_full_backup(format!("h{}b{}", idx, k)) } else { mgr.create_incremental_backup(parent.as_ref().unwrap().id, format!("h{}b{}", idx, k)) };
         // correspondence: which members did the implementation archive?
         let metas_now: Vec<BackupMetadata> = taken.iter().map(|t| t.meta.clone()).collect();
@@ -255,7 +267,7 @@ fn run_history(seed: u64, idx: usize, work: &Path, backups_per_history: usize) -
             let wid = acc.new_case(json!({"stage": "A", "kind": "premise-wf", "history": idx, "backup": k}));
             acc.wf_cases.push(format!("(@ID{}@, {}, {})", wid, dname, ml));
         }
-        if let (false, Some(p), Some(pname)) = (full, parent.as_ref(), dir_names.last()) {
+        if let (false, Some(p), Some(pname)) = (full, parent.as_ref(), dir_names.get(pidx)) {
             let eid = acc.new_case(json!({"stage": "A", "kind": "premise-evolves", "history": idx, "backup": k}));
             acc.evolve_cases.push(format!("(@ID{}@, {}, {}, {}, {})", eid, pname, p.timestamp, opt_n(p.max_wal_file_id), dname));
         }
@@ -275,7 +287,7 @@ fn run_history(seed: u64, idx: usize, work: &Path, backups_per_history: usize) -
                 acc.bump(&format!("backup_refused:{}", create_err_class(&s)));
                 program.push(json!({"backup_refused": s}));
                 // "No new WAL files" is legitimate only when nothing was logged since the parent backup
-                let unchanged = taken.last().map(|t| t.census == census).unwrap_or(false);
+                let unchanged = taken.get(pidx).map(|t| t.census == census).unwrap_or(false);
                 if !s.contains("No new WAL files") || !unchanged {
                     acc.fails.push(json!({"stage": "A", "why": format!("backup of a quiescent engine directory refused{}: {}", if unchanged { "" } else { " although the collection changed since the parent backup" }, s), "class": null, "program": program, "cfg": cfg, "replay": {"stage": "A", "seed": seed, "index": idx}}));
                 }
@@ -376,7 +388,24 @@ fn run_history(seed: u64, idx: usize, work: &Path, backups_per_history: usize) -
         // timelines are linear (every incremental's parent is the backup before it): the latest backup <= target
         let expect = taken.iter().filter(|t| t.meta.timestamp <= *ts).last();
         acc.bump("pitr");
-        check_restore(&mut acc, &format!("point-in-time {}", ts), &tgt, res, expect, &bk, &[]);
+        // With branching parent pointers "the chain to the target" is the newest qualifying child at every
+        // step from the newest qualifying full backup; the direct oracle applies when that walk ends at the
+        // latest backup not after the target (always so on linear timelines and for plain siblings).
+        let walk_end = {
+            let mut cur = taken.iter().filter(|t| t.meta.timestamp <= *ts && t.meta.backup_type == BackupType::Full).last();
+            while let Some(c) = cur {
+                match taken.iter().filter(|t| t.meta.parent_id == Some(c.meta.id) && t.meta.timestamp <= *ts && t.meta.backup_type == BackupType::Incremental).last() {
+                    Some(n) => cur = Some(n),
+                    None => break,
+                }
+            }
+            cur
+        };
+        if walk_end.map(|t| t.meta.id) == expect.map(|t| t.meta.id) {
+            check_restore(&mut acc, &format!("point-in-time {}", ts), &tgt, res, expect, &bk, &[]);
+        } else {
+            acc.bump("pitr_branching_walk_not_latest(model correspondence only)");
+        }
     }
     // ---- prune (default policy) on a copy of the backup directory, then restore every retained backup
     if taken.len() >= 2 {
